@@ -142,14 +142,6 @@ theorem c06_turn_decreases_pending (s : FcStream) (cswin : Int) (budget : Nat) :
 
 /-! ## receive side: credit is returned at least as fast as DATA is received -/
 
-/-- run h2_send_window_update_unit() over a sequence of received DATA frame lengths;
-    returns the final fudge and the total credit returned in WINDOW_UPDATE frames -/
-def creditRun : Int → List Nat → Int × Nat
-  | f, [] => (f, 0)
-  | f, len :: rest =>
-    let r := creditRun (fudgeUpdate f len).1 rest
-    (r.1, r.2 + (if (fudgeUpdate f len).2 then 16384 else 0))
-
 /-- **Upload progress**: for every sequence of DATA frames of legal size (≤ 16384, the
     advertised SETTINGS_MAX_FRAME_SIZE) the credit lighttpd has returned (connection level,
     and stream level for streams whose body it is reading) is at least the number of bytes
